@@ -12,7 +12,7 @@ import time
 
 ROOT = os.path.dirname(os.path.dirname(os.path.abspath(__file__)))
 SPEC = os.path.join(ROOT, "spec")
-HARNESS = os.path.join(ROOT, "harness")
+HARNESS = os.environ.get("VERIF_HARNESS") or os.path.join(ROOT, "harness")
 WORK = os.path.join(ROOT, "work")
 BIN = os.path.join(HARNESS, "target", "release")
 TLA_JAR = "/opt/veriftools/tla/tla2tools.jar:/opt/veriftools/tla/CommunityModules-deps.jar"
